@@ -34,6 +34,19 @@ def run(db, rep, feat, tier):
     r4(db, rep)
     r5(db, rep)
     r6(db, rep)
+    # the analysis decides `all_constants` before evaluating: that traversal must visit every operand (C04.R1)
+    import props.c04 as c04
+    from armlib import variants_of
+    variants = variants_of(db, c04.EXPR)
+    vinfo = {last_seg(v): info for v, info in variants}
+    before = len(rep.rules)
+    c04.r1(db, rep, variants, vinfo)
+    for rr in rep.rules[before:]:
+        rr.id = "R8." + rr.id
+        rr.floors = []
+        for i in rr.instances:
+            i["key"] = "R8." + i["key"]
+            i["rule"] = rr.id
     r7 = rep.rule("R7", "K8", "no undischarged panic site reachable from stack_pointer_offsets()")
     panics.reach_rule(db, rep, r7, ["analysis::stack_pointer_offsets::stack_pointer_offsets"],
                       scope_prefixes=("analysis::stack_pointer_offsets", "<analysis::stack_pointer_offsets"))
